@@ -16,7 +16,7 @@ from ..gen import c17_nets as G
 PID = "C17"
 KNOWN_LP_KEY = "stoich._positive_conservation_law_from_basis:LP-branch:false-negative"
 COQ_HEADER = ("From Coq Require Import List NArith ZArith.\nImport ListNotations.\n"
-              "From SK Require Import lib.Tok lib.C17_Farkas model.C17_Model model.C17_NodeModel.\n")
+              "From SK Require Import lib.Tok lib.C17_Farkas model.C17_Model model.C17_NodeModel model.C17_IntLaws.\n")
 SHARD = 250
 IMPL_TIMEOUT = 2400
 COQ_TIMEOUT = 1500
@@ -36,7 +36,9 @@ TRUSTED_BASE = [
     "MathComp 1.15 (\\rank over rat) and mathcomp.zify ssrZ for the list-to-matrix bridge (lib/RankBridge.v), axiom-free",
     "hand-written models coq/model/C17_Model.v (label level) and coq/model/C17_NodeModel.v (node-identifier level; evaluated on the node "
     "ids of the graph the implementation really used) tied to stoich.py/utils.py/conversion.py by the per-run correspondence",
-    "harness encoders harness/props/C17.py (case -> Gallina literal; numpy arrays -> integers) and the tok digest",
+    "harness encoders harness/props/C17.py (case -> Gallina literal; numpy arrays -> integers; floats -> exact float.as_integer_ratio() pairs) and the tok digest",
+    "model/C17_IntLaws.v: hand-written model of CPython 3.12 fractions.Fraction.limit_denominator and of stoich._lcm / _vector_to_minimal_integer / "
+    "integer_conservation_laws; which branch the code took is observed by giving the module its own round()",
     "numpy/scipy numerics are NOT trusted and NOT modelled: their integer/boolean outputs are compared per input with certified exact values",
     "the certificate finders (harness/gen/c17_exact.py: integer echelon factorisation, exact Fraction simplex) are untrusted; only the Coq checkers are",
 ]
@@ -49,7 +51,10 @@ TESTED_NOT_PROVED = [
     "witness m returned by compute_conservativity is > 0 and m^T S = 0 within 1e-8 (oracle, every case)",
     "numpy matrix_rank / scipy null_space / HiGHS verdicts equal the certified exact values (per input, every case)",
     "existence of a certificate (hard direction of Stiemke): the finder produced a checked certificate for every generated input",
-    "integer_conservation_laws: count = species - rank (oracle); exact annihilation share is reported in the distribution only",
+    "integer_conservation_laws: count = species - rank (oracle); the integer / rational logic of _vector_to_minimal_integer and "
+    "Fraction.limit_denominator is modelled (model/C17_IntLaws.v, compared entry by entry on networks, direct vectors and limit_denominator queries) "
+    "but its two float-rounding fall-back branches are outside the model (marker on both sides; about half of the scipy bases take them), and that "
+    "a returned integer law annihilates S is not claimed (the code calls the laws approximate)",
     "a hypergraph analysed, edited (reactions added) and analysed again gives the analysis of the edited network (oracle only, hypergraph view)",
     "that a caller-supplied graph IS the export of some network under an injective identifier assignment (views bip_perm / bip_sperm are "
     "built that way by the harness; C17_S_node_ids covers exactly such graphs)",
@@ -59,7 +64,9 @@ LEVEL_TEXT = ("Machine-checked proof (Coq) that the model of build_S has one row
               "column order, for every network; that the identifier-level computation the code really performs (nodes sorted by label, row / "
               "column looked up by node identifier, matrices filled arc by arc) gives exactly these labels and matrices for every injective "
               "assignment of node identifiers (two-digit, permuted, string or integer); and that the executable rank / positive-kernel certificate checkers are sound for every "
-              "integer matrix (rank over the rationals via MathComp, Stiemke alternative for conservativity and consistency). The float "
+              "integer matrix (rank over the rationals via MathComp, Stiemke alternative for conservativity and consistency); that limit_denominator returns a positive denominator "
+              "within its bound and that _vector_to_minimal_integer (outside its float-rounding fall-backs) returns the zero vector or a gcd-1 vector positively proportional to the "
+              "rational approximations of the entries. The float "
               "results of the implementation (rank, kernel dimensions, verdicts) are compared on every run with certified exact values on an "
               "exhaustive small scope plus random and textbook networks; float bases and witnesses are tolerance-tested.")
 LEVEL_NOTE = ("Partial by nature: no theorem is about numpy/scipy/HiGHS. Universal: build_S model theorems and checker soundness. Per input: "
@@ -159,9 +166,95 @@ def _one(*vals):
 
 
 def impl(case):
+    if case.get("il"):
+        return _impl_intlaw(case)
     if case.get("states"):
         return _impl_history(case)
     return _impl_core(case, build(case))
+
+
+# ------------------------------------------------------------------ integer scaling helpers (round 5)
+# _vector_to_minimal_integer / integer_conservation_laws / Fraction.limit_denominator against model/C17_IntLaws.v.  A float is handed to
+# the model EXACTLY (float.as_integer_ratio()).  The two fall-back branches of _vector_to_minimal_integer round floats and are outside the
+# model ([99] on both sides): the harness sees them by giving the module its own `round`.
+
+def _with_round_probe(f):
+    """run f() and report whether stoich's code called round() meanwhile"""
+    from synkit.CRN.Props import stoich
+    used = []
+
+    def probe(x, *a):
+        used.append(1)
+        return round(x, *a)
+    stoich.round = probe
+    try:
+        out = f()
+    finally:
+        del stoich.round
+    return out, bool(used)
+
+
+def _law_obs(ints, fell_back):
+    return [99] if fell_back else [[int(v) for v in ints]]
+
+
+def _impl_intlaw(case):
+    import warnings
+    warnings.filterwarnings("ignore")
+    import numpy as np
+    from fractions import Fraction
+    from synkit.CRN.Props import stoich
+    if case["il"] == "limit":
+        out = []
+        for p_, q_ in case["xs"]:
+            r = Fraction(p_, q_).limit_denominator(case["maxd"])
+            out.append([int(r.numerator), int(r.denominator)])
+        return out
+    if case["il"] == "vec":
+        vec = np.array([float.fromhex(h) for h in case["vec"]], dtype=float)
+        tol = float.fromhex(case["tol"])
+        ints, fb = _with_round_probe(lambda: stoich._vector_to_minimal_integer(vec, tol=tol))
+        return [_law_obs(ints, fb)]
+    # il == "net": integer_conservation_laws of a network, column by column
+    Xv = view_of(case, build(case))
+    orig = stoich._vector_to_minimal_integer
+    flags = []
+
+    def wrapped(vec, **kw):
+        out, fb = _with_round_probe(lambda: orig(vec, **kw))
+        flags.append(fb)
+        return out
+    stoich._vector_to_minimal_integer = wrapped
+    try:
+        laws = stoich.integer_conservation_laws(Xv)
+    finally:
+        stoich._vector_to_minimal_integer = orig
+    assert len(flags) == len(laws)
+    return [_law_obs(l, fb) for l, fb in zip(laws, flags)]
+
+
+def _cfrac(x):
+    p_, q_ = float(x).as_integer_ratio()
+    return cpair(cZ(p_), cZ(q_))
+
+
+def _coq_case_intlaw(case):
+    import warnings
+    warnings.filterwarnings("ignore")
+    import numpy as np
+    from fractions import Fraction
+    from synkit.CRN.Props import stoich
+    if case["il"] == "limit":
+        xs = []
+        for p_, q_ in case["xs"]:
+            fr = Fraction(p_, q_)                      # Fraction reduces and makes the denominator positive
+            xs.append(cpair(cZ(fr.numerator), cZ(fr.denominator)))
+        return "run_limit %s %s" % (cZ(case["maxd"]), clist(xs))
+    if case["il"] == "vec":
+        return "run_intlaws %s %s" % (_cfrac(float.fromhex(case["tol"])), clist([clist([_cfrac(float.fromhex(h)) for h in case["vec"]])]))
+    B = stoich.left_nullspace(view_of(case, build(case)))
+    cols = [] if B is None or B.size == 0 else [[float(x) for x in B[:, k]] for k in range(B.shape[1])]
+    return "run_intlaws %s %s" % (_cfrac(1e-9), clist([clist([_cfrac(x) for x in col]) for col in cols]))
 
 
 def _impl_core(case, H, Xv=None):
@@ -338,6 +431,8 @@ def certificates(S, m, n):
 
 
 def coq_case(case):
+    if case.get("il"):
+        return _coq_case_intlaw(case)
     if case.get("states"):
         return "L [%s]" % "; ".join(_coq_case_core(_state_case(case, k)) for k in range(len(case["states"])))
     return _coq_case_core(case)
@@ -392,6 +487,9 @@ def node_ids(case):
 # ------------------------------------------------------------------ property oracle
 
 def oracle(case):
+    if case.get("il"):
+        return []          # the property text makes no exact demand on the scaled integer laws (count = species - rank is judged on the
+                           # network cases); these cases tie the helper's integer / rational logic to the model (correspondence only)
     if case.get("states"):
         return _oracle_history(case)
     return _oracle_core(case, build(case))
@@ -688,7 +786,7 @@ def _oracle_core(case, H, Xv=None):
 
 def shrink(case, fl):
     """Drop reactions / isolated species / decorations while the same clause still fails."""
-    if case.get("states"):
+    if case.get("states") or case.get("il"):
         return case
     cur = dict(case)
     clause = fl.get("clause")
@@ -719,7 +817,7 @@ def shrink(case, fl):
 
 
 def neighbours(case, rng):
-    if case.get("states"):
+    if case.get("states") or case.get("il"):
         return []
     out = []
     for k in range(len(case["rxns"])):
@@ -730,6 +828,8 @@ def neighbours(case, rng):
 
 
 def nontrivial(case, obs):
+    if case.get("il"):
+        return isinstance(obs, list) and any(o != [99] and o not in ([[0] * len(o[0])] if o and isinstance(o[0], list) else []) for o in obs)
     if case.get("states"):
         obs = obs[-1] if isinstance(obs, list) and obs and isinstance(obs[-1], list) else obs
     return bool(case["rxns"]) and isinstance(obs, list) and len(obs) > 3 and any(any(x != 0 for x in row) for row in obs[3])
@@ -740,7 +840,18 @@ def distribution(cases, obss):
     lp_branch = 0
     views = {}
     hist = dict(cases=0, states=0, edits={})
+    il = dict(cases={}, laws=0, fallback=0, zero=0, limit_queries=0)
     for c, o in zip(cases, obss):
+        if c.get("il"):
+            il["cases"][c["il"]] = il["cases"].get(c["il"], 0) + 1
+            if c["il"] == "limit":
+                il["limit_queries"] += len(c["xs"])
+            elif isinstance(o, list):
+                for law in o:
+                    il["laws"] += 1
+                    il["fallback"] += law == [99]
+                    il["zero"] += law != [99] and isinstance(law, list) and bool(law) and all(v == 0 for v in law[0])
+            continue
         if c.get("states"):
             hist["cases"] += 1
             hist["states"] += len(c["states"])
@@ -763,7 +874,7 @@ def distribution(cases, obss):
         if isinstance(dl, int) and dl > 1:
             lp_branch += 1
     return dict(matrix_sizes=dict(sorted(sizes.items())), ranks=ranks, verdicts=verd, left_kernel_dims=lk,
-                left_kernel_dim_gt1=lp_branch, views=views, edit_histories=hist)
+                left_kernel_dim_gt1=lp_branch, views=views, edit_histories=hist, integer_laws=il)
 
 
 # ------------------------------------------------------------------ generators
@@ -1006,7 +1117,57 @@ def _sweep_sample(count, rng, kind):
     return cases
 
 
+def gen_intlaw(tier, rng, nets):
+    """cases for the integer-scaling helpers: networks (integer_conservation_laws on every view), vectors handed to
+    _vector_to_minimal_integer directly (rational directions times awkward scales, float noise around the tolerance, tiny entries,
+    denominators around 10^6), Fraction.limit_denominator queries"""
+    import math
+    q = tier == "quick"
+    out = []
+    pool = [c for c in nets if not c.get("states") and c.get("rxns")]
+    for c in rng.sample(pool, min(len(pool), 160 if q else 1500)):
+        out.append(dict(c, il="net", kind="intlaw-net", name=(c.get("name") or c.get("kind", "")) + "/integer-laws"))
+    for t in range(150 if q else 1500):
+        n = rng.randint(1, 7)
+        base = [rng.randint(-6, 6) for _ in range(n)]
+        z = rng.random()
+        if z < 0.35:
+            sc = rng.choice([1.0, 0.5, 1 / 3, 1 / math.sqrt(sum(b * b for b in base) or 1), 1 / 7, 0.1, 1e-3, 12.0, 1 / 999983, 1 / 1000003])
+            vec = [b * sc for b in base]
+        elif z < 0.6:
+            sc = 1 / math.sqrt(sum(b * b for b in base) or 1)
+            vec = [b * sc + rng.choice([0, 1e-17, -1e-16, 1e-12, 3e-10, 2e-9, -9.9e-10]) for b in base]
+        elif z < 0.75:
+            vec = [rng.uniform(-1, 1) for _ in range(n)]
+        elif z < 0.9:
+            vec = [rng.choice([0.0, 1e-10, 5e-7, 1e-6, 2.5e-7, 1e-9, -1e-9, 0.25, 1 / 3, -0.0, 4.9e-7, 5.1e-7]) for _ in range(n)]
+        else:
+            vec = [rng.choice([1, -1]) * rng.randint(1, 40) / rng.choice([2, 3, 5, 7, 64, 999, 1000, 1024, 999983, 1000000, 1000001]) for _ in range(n)]
+        out.append(dict(il="vec", kind="intlaw-vec", vec=[float(x).hex() for x in vec], tol=float(rng.choice([1e-9, 1e-9, 1e-12])).hex(), rxns=[]))
+    for t in range(12 if q else 100):
+        xs = []
+        for _ in range(25):
+            z = rng.random()
+            if z < 0.3:
+                p_, q_ = float(rng.uniform(-3, 3)).as_integer_ratio()
+            elif z < 0.6:
+                p_, q_ = rng.randint(-10 ** 9, 10 ** 9), rng.randint(1, 10 ** 9)
+            elif z < 0.8:
+                a_, b_ = rng.randint(-50, 50), rng.randint(1, 50)
+                p_, q_ = float(a_ / b_).as_integer_ratio()
+            else:
+                p_, q_ = rng.randint(-5, 5), rng.choice([1, 2, 999999, 1000000, 1000001, 2000000, 10 ** 12 + 39])
+            xs.append([int(p_), int(q_)])
+        out.append(dict(il="limit", kind="intlaw-limit", xs=xs, maxd=rng.choice([10 ** 6, 10 ** 6, 1, 2, 10, 1000, 999983]), rxns=[]))
+    return out
+
+
 def gen_cases(tier, rng):
+    cases = _gen_cases_nets(tier, rng)
+    return cases + gen_intlaw(tier, rng, cases)
+
+
+def _gen_cases_nets(tier, rng):
     cases = []
     cases += G.textbook()
     for k in range(40 if tier == "quick" else 400):
